@@ -7,7 +7,7 @@ use ethercrab::ReceiveAction;
 use serde_json::json;
 
 const ASSUME: &[&str] = &[
-    "operations run to completion one after another (histories, not interleavings; a send is atomic, so the abandon-while-sending window of C06 cannot arise)",
+    "E2 part: operations run to completion one after another (histories, not interleavings; a send is atomic, so the abandon-while-sending window of C06 cannot arise); E1 part (harnesses c03-e1-*): expiry / drop of the future at every scheduling point inside send and receive, capacity clause only",
     "ethercrab built without its std feature; deadlines fire only through the explicit `tick` operation of the virtual clock",
     "storage of N in {1,2,4} slots with 64-byte frames, at most K live handles, at most 2 responses in flight (oldest dropped = loss)",
     "canonical state = all fields of every slot (status, first_pdu, payload length, buffer), frame_idx mod N, pdu_idx, every live handle (kind, slot, retries, deadline order, wake flag), in-flight responses; absolute time abstracted to deadline order",
@@ -69,6 +69,35 @@ pub fn c03(tier: &Tier) -> Result<i32, String> {
         }
     }
     rep.extra.insert("searches".into(), json!(runs));
+    // The slot states Sending and RxBusy exist only while the transmit / receive side is inside one
+    // call: "future drops in every reachable slot state" is completed with the controlled
+    // scheduler (capacity clause only).
+    if rep.unknown.is_empty() {
+        let known = crate::report::Known::load();
+        for (h, bounds) in crate::checks::e1_checks::c03_harnesses(tier.thorough) {
+            let lim = crate::core::Limits {
+                max_executions: u64::MAX,
+                max_wall: std::time::Duration::from_secs(if tier.thorough { 300 } else { 120 }),
+                workers: crate::core::workers(),
+            };
+            let is_known = |s: &str| known.find("C03", s).is_some();
+            let st = crate::core::explore_iterative(&h, &bounds, &lim, tier.seed, &is_known)?;
+            println!(
+                "  {:<32} bound {:?}: {} executions, {} states, {} outcomes, {:.1}s{}",
+                crate::core::Harness::name(&h),
+                st.bound_completed.map(|b| (b.preempt, b.env)),
+                st.executions,
+                st.states,
+                st.outcomes.len(),
+                st.wall_s,
+                st.cap_hit.as_ref().map(|c| format!(" CAP: {}", c)).unwrap_or_default()
+            );
+            rep.absorb(&h, &st)?;
+            if !rep.unknown.is_empty() {
+                break;
+            }
+        }
+    }
     Ok(rep.finish())
 }
 
